@@ -25,7 +25,8 @@
 (*                      recv) and runs its T2 on this thread               *)
 (*                  E4  the proxy unsubscribes itself    -> maybe srcTd    *)
 (*                                                                         *)
-(* The reference counter belongs to the generation (fix 75994e7).  Before  *)
+(* The reference counter and the two "kept after termination" flags belong *)
+(* to the generation (fixes 75994e7 and the one that followed).  Before     *)
 (* the fix refCount was ONE counter for all generations: a reference taken *)
 (* on a generation that had been reset meanwhile was given back to the     *)
 (* counter of the NEXT generation (finding share.stale-refcount-after-     *)
@@ -66,7 +67,7 @@ O0 == [st |-> 0, done |-> FALSE, reg |-> FALSE, g |-> 0]
 T0 == [pc |-> "idle", o |-> 0, g |-> 0, created |-> FALSE, kind |-> "N", todo |-> {}, after |-> "idle", after2 |-> "idle", tdg |-> 0, mine |-> 0, ops |-> 0]
 
 Init ==
-  /\ conf \in Confs /\ mu = 0 /\ cur = 0 /\ ngen = 0 /\ rc = [g \in 0..MaxGen |-> 0] /\ hasE = FALSE /\ hasC = FALSE /\ aware \in Aware
+  /\ conf \in Confs /\ mu = 0 /\ cur = 0 /\ ngen = 0 /\ rc = [g \in 0..MaxGen |-> 0] /\ hasE = [g \in 0..MaxGen |-> FALSE] /\ hasC = [g \in 0..MaxGen |-> FALSE] /\ aware \in Aware
   /\ G = [g \in Gens |-> G0] /\ O = [o \in Obs |-> O0] /\ used = {} /\ nsrc = 0 /\ torn = {} /\ genOfK = [k \in Gens |-> 0]
   /\ th = [p \in P |-> T0] /\ ev = NoEv
 
@@ -120,7 +121,7 @@ S2(p) ==
   /\ UNCHANGED <<conf, mu, cur, ngen, rc, hasE, hasC, aware, used, nsrc, torn, genOfK>>
 
 S3a(p) ==
-  /\ th[p].pc = "s3a" /\ hasE' = FALSE /\ hasC' = FALSE
+  /\ th[p].pc = "s3a" /\ hasE' = [hasE EXCEPT ![Idx(th[p].g)] = FALSE] /\ hasC' = [hasC EXCEPT ![Idx(th[p].g)] = FALSE]
   /\ th' = [th EXCEPT ![p].pc = "s3b"] /\ ev' = NoEv
   /\ UNCHANGED <<conf, mu, cur, ngen, rc, aware, G, O, used, nsrc, torn, genOfK>>
 
@@ -168,7 +169,7 @@ T2(p) ==
   /\ LET o == th[p].o
          g == O[o].g
          n == rc[Idx(g)] - 1
-         doReset == Rz /\ n = 0 /\ ~hasE /\ ~hasC
+         doReset == Rz /\ n = 0 /\ ~hasE[Idx(g)] /\ ~hasC[Idx(g)]
          r == IF doReset THEN ResetG(G, g) ELSE [G |-> G, run |-> FALSE]
      IN /\ rc' = [rc EXCEPT ![Idx(g)] = n]
         /\ G' = r.G
@@ -228,8 +229,8 @@ E2(p) ==
      IN /\ rs => mu = 0
         /\ G' = r.G
         /\ cur' = IF rs /\ cur = g THEN 0 ELSE cur
-        /\ hasE' = IF ~rs /\ th[p].kind = "E" THEN TRUE ELSE hasE
-        /\ hasC' = IF ~rs /\ th[p].kind = "C" THEN TRUE ELSE hasC
+        /\ hasE' = IF ~rs /\ th[p].kind = "E" THEN [hasE EXCEPT ![Idx(g)] = TRUE] ELSE hasE
+        /\ hasC' = IF ~rs /\ th[p].kind = "C" THEN [hasC EXCEPT ![Idx(g)] = TRUE] ELSE hasC
         /\ mu' = IF r.run THEN p ELSE mu
         /\ th' = [th EXCEPT ![p] = Then(@, r.run, g, "e3a")]
   /\ ev' = NoEv
@@ -297,6 +298,7 @@ View == <<conf, mu, cur, ngen, rc, hasE, hasC, aware, G, O, used, nsrc, torn, ge
 
 AllConfs == {[re |-> a, rc |-> b, rz |-> c] : a \in BOOLEAN, b \in BOOLEAN, c \in BOOLEAN}
 OneConf == {[re |-> TRUE, rc |-> TRUE, rz |-> TRUE]}
+FlagConf == {[re |-> FALSE, rc |-> FALSE, rz |-> TRUE], [re |-> FALSE, rc |-> TRUE, rz |-> TRUE], [re |-> TRUE, rc |-> FALSE, rz |-> TRUE]}
 
 (* ---------------------------------- properties ---------------------------------- *)
 Quiet == \A p \in P : th[p].pc = "idle"
